@@ -264,11 +264,19 @@ def rule_e(prog, rep):
 
         def buf_fields(fn_, method):
             out = []
+            fb_ = Bindings(crate, fn_)
             for nd, anc in crate.walk_fn(fn_):
                 if nd.get('k') == 'call' and short(callee(nd)) == method and ('HashMap' in callee(nd)):
-                    for x, _ in walk(nd['args'][0]):
-                        if x.get('k') == 'field' and 'SendBuffer' in str(x.get('base_ty')):
-                            out.append(x['name'])
+                    found = [x['name'] for x, _ in walk(nd['args'][0]) if x.get('k') == 'field' and 'SendBuffer' in str(x.get('base_ty'))]
+                    if not found:
+                        # the map is reached through a parameter of a helper: follow the provenance to the field of SendBuffer
+                        for x, _ in walk(nd['args'][0]):
+                            if x.get('k') == 'path' and x.get('res') == 'local':
+                                for o in fb_.origins(x):
+                                    m_ = re.search(r'param\(self\)\.(\w+_buffer)', o)
+                                    if m_:
+                                        found.append(m_.group(1))
+                    out += sorted(set(found))
             return out
         fb, db = buf_fields(fill, 'insert'), buf_fields(drain, 'remove')
         spawned = [short(callee(x)) for nd, anc in crate.walk_fn(fill) if nd.get('k') == 'call' and short(callee(nd)) == 'spawn'
@@ -290,7 +298,8 @@ def rule_e(prog, rep):
         b = Bindings(crate, fill)
         sp = [(nd, anc) for nd, anc in crate.walk_fn(fill) if nd.get('k') == 'call' and short(callee(nd)) == 'spawn']
         if sp:
-            g = [it for it in guards(sp[0][1] + (sp[0][0],)) if it[0] == 'if' and it[2] is True]
+            from ..ir import inline_predicate
+            g = [('if', inline_predicate(crate, it[1]), it[2]) for it in guards(sp[0][1] + (sp[0][0],)) if it[0] == 'if' and it[2] is True]
             if not any(it[1].get('k') == 'call' and short(callee(it[1])) == 'is_none' and any('insert' in x for x in b.origins(it[1]['args'][0])) for it in g):
                 problems.append('the sender task is not spawned exactly when the key was not buffered before')
         db_ = Bindings(crate, drain)
